@@ -203,8 +203,8 @@ fn terminal_bin<'a, M: Manager<Terminal = T>, T: NumberBase, const OP: u8>(
             (Terminal(t), _) | (_, Terminal(t)) if t.borrow().is_nan() => {
                 Done(m.get_terminal(T::nan())?)
             }
-            _ if f > g => Binary(MTBDDOp::Min, g.borrowed(), f.borrowed()),
-            _ => Binary(MTBDDOp::Min, f.borrowed(), g.borrowed()),
+            _ if f > g => Binary(MTBDDOp::Max, g.borrowed(), f.borrowed()),
+            _ => Binary(MTBDDOp::Max, f.borrowed(), g.borrowed()),
         }
     } else {
         unreachable!("invalid binary operator")
